@@ -23,7 +23,10 @@ RULE = ("Cases are 1..6 key/value pairs passed to set_conf: keys are option-like
         "alphabet {a, space, tab, double quote, backslash, '=', '#', single quote}, random printable ASCII up "
         "to 200 chars, values with CR / LF / CRLF+injected command, ints, bools, empty. Oracle: exactly one "
         "CRLF-terminated line 'SETCONF ...' whose decoding by an independent kvline parser gives exactly the "
-        "pairs in order (CR/LF: that, or an error with nothing written). Non-trivial = some value contains a "
+        "pairs in order (CR/LF: that, or an error with nothing written); the next command submitted afterwards must "
+        "put exactly itself on the wire (nothing refused may have been left in the queue); one case in four makes the "
+        "call while another command is unanswered and follows it with a second set_conf(): each call must reach Tor "
+        "as its own line. Non-trivial = some value contains a "
         "quote, backslash, tab, CR or LF; distinct = distinct canonical JSON.")
 ASSUMPTIONS = [
     "Tor parses SETCONF arguments with kvline_parse(KV_QUOTED|KV_OMIT_VALS): items separated by blanks, "
@@ -54,7 +57,14 @@ def values():
 def cases():
     key = st.one_of(st.sampled_from(KEYS), st.sampled_from(KEYS),
                     st.sampled_from(["Socks\r\nPort", "X\nSIGNAL HALT\r\n", "A\rB"]))
-    return st.lists(st.tuples(key, values()).map(list), min_size=1, max_size=6).map(lambda p: {"pairs": p})
+    def build(p, busy):
+        if busy:        # line breaks are the idle driver's subject
+            strip = lambda x: x.replace("\r", "").replace("\n", "") if isinstance(x, str) else x
+            p = [[k if strip(k) == k else "Log", strip(v)] for k, v in p]
+        return {"pairs": p, "busy": busy}
+    return st.builds(build,
+                     st.lists(st.tuples(key, values()).map(list), min_size=1, max_size=6),
+                     st.sampled_from([False, False, False, True]))
 
 
 def exhaustive_cases(maxlen):
@@ -70,6 +80,93 @@ def exhaustive_cases(maxlen):
 
 
 def drive(case):
+    """the set_conf() call on an idle connection, then what the NEXT command puts on the wire (a refused command must
+    not have been left in the queue); with case["busy"] the same call made while another command is unanswered,
+    followed by a second set_conf() - each call must still reach Tor as its own line"""
+    if case.get("busy"):
+        return _drive_busy(case)
+    res, pipe = _drive_call(case)
+    if res.problems:
+        return res
+    n1 = len(pipe.transport.writes)
+    try:
+        w2 = Watch(pipe.proto.queue_command("GETINFO version"))
+        pipe.pump()
+    except Exception as e:
+        res.bad("next-command-raised", "pairs %r: the next command raised %r" % (case["pairs"], e))
+        return res
+    after = b"".join(pipe.transport.writes[n1:])
+    if after != b"GETINFO version\r\n" or pipe.escaped or not w2.succeeded:
+        res.bad("left-over-written-with-the-next-command", "pairs %r: the next command (GETINFO version) put %r on the "
+                "wire, outcome %r, escaped %r" % (case["pairs"], after, w2.outcome(), pipe.escaped))
+    return res
+
+
+def _drive_busy(case):
+    res = Result()
+    pairs = [(k, v) for k, v in case["pairs"]]
+    if any(isinstance(x, str) and ("\r" in x or "\n" in x) for k, v in pairs for x in (k, v)):
+        res.excluded.append("busy-case-with-line-breaks")       # judged by the idle driver
+        return res
+    held = {"on": False, "pending": []}
+
+    def handler(line):
+        if held["on"]:
+            held["pending"].append(line)
+            return None
+        return NotImplemented
+    pipe, srv = bootstrapped_pipe(handler)
+    held["on"] = True
+    n0 = len(pipe.transport.writes)
+    flat = []
+    for k, v in pairs:
+        flat.extend([k, v])
+    ws = []
+    try:
+        ws.append(Watch(pipe.proto.queue_command("GETINFO version")))
+        ws.append(Watch(pipe.proto.set_conf(*flat)))
+        ws.append(Watch(pipe.proto.set_conf("Nickname", "zz")))
+        pipe.pump()
+        # Tor answers one by one
+        guard = 0
+        while guard < 10 and any(w.pending for w in ws):
+            guard += 1
+            held["on"] = False
+            pend, held["pending"] = held["pending"], []
+            for ln in pend:
+                r = srv(ln)
+                if r:
+                    pipe.produce(r)
+            held["on"] = True
+            pipe.pump()
+    except Exception as e:
+        res.bad("raised-while-busy", "pairs %r: %r" % (pairs, e))
+        return res
+    res.label("set_conf-while-another-command-is-unanswered")
+    res.nontrivial = any(isinstance(v, str) and any(c in v for c in '"\\\t') for k, v in pairs)
+    data = b"".join(pipe.transport.writes[n0:])
+    lines = data.split(b"\r\n")
+    if lines[-1] != b"" or len(lines) != 4 or lines[0] != b"GETINFO version":
+        res.bad("busy-wire", "GETINFO version, set_conf%r, set_conf('Nickname','zz') wrote %r" % (tuple(flat), data))
+        return res
+    want = [[(k, str(v)) for k, v in pairs], [("Nickname", "zz")]]
+    for ln, w in zip(lines[1:3], want):
+        txt = ln.decode("latin-1")
+        try:
+            got = wire.parse_kvline(txt[len("SETCONF "):]) if txt.startswith("SETCONF ") else None
+        except wire.ParseError:
+            got = None
+        norm = None if got is None else [(k, ("" if v is None else v)) for k, v in got]
+        if norm != w:
+            res.bad("busy-roundtrip", "while busy: set_conf%r / set_conf('Nickname','zz') reached Tor as %r" % (
+                tuple(flat), [x.decode("latin-1") for x in lines[1:3]]))
+            break
+    if any(not w.succeeded for w in ws):
+        res.bad("busy-outcome", "outcomes %r" % ([w.outcome() for w in ws],))
+    return res
+
+
+def _drive_call(case):
     res = Result()
     pairs = [(k, v) for k, v in case["pairs"]]
     pipe, srv = bootstrapped_pipe()
@@ -107,35 +204,35 @@ def drive(case):
     if data == b"":
         if hostile and refused:
             res.label("refused")
-            return res
+            return res, pipe
         res.bad("nothing-written", "pairs %r: nothing written, raised=%r outcome=%r" % (
             pairs, raised, w.outcome() if w else None))
-        return res
+        return res, pipe
     if raised is not None:
         res.bad("raised-after-writing", "pairs %r: wrote %r and raised %r" % (pairs, data, raised))
-        return res
+        return res, pipe
     # one line
     if data.count(b"\r") + data.count(b"\n") != 2 or not data.endswith(b"\r\n"):
         tag = "line-injection"
         res.bad(tag, "pairs %r wrote %r" % (pairs, data))
-        return res
+        return res, pipe
     line = data[:-2].decode("latin-1")
     if not line.startswith("SETCONF "):
         res.bad("not-setconf", repr(line))
-        return res
+        return res, pipe
     if hostile_key:
         res.bad("hostile-key-sent", "pairs %r wrote %r" % (pairs, data))
-        return res
+        return res, pipe
     try:
         got = wire.parse_kvline(line[len("SETCONF "):])
     except wire.ParseError as e:
         res.bad(_tag(pairs, "unparseable"), "pairs %r wrote %r: %s" % (pairs, line, e))
-        return res
+        return res, pipe
     want = [(k, str(v)) for k, v in pairs]
     norm = [(k, ("" if v is None else v)) for k, v in got]
     if norm != want or any(v is None and wv != "" for (k, v), (wk, wv) in zip(got, want)):
         res.bad(_tag(pairs, "roundtrip"), "pairs %r wrote %r which Tor parses as %r" % (pairs, line, got))
-    return res
+    return res, pipe
 
 
 def _tag(pairs, kind):
